@@ -800,6 +800,38 @@ def _compile_func(node) -> Callable:
                 d[str(k)] = argfs[i + 1](X)
             return json_text(d)
         return f_jsonobj
+    if name == 'JSON_QUOTE':
+        # MySQL 8.0 ref. 14.17.2: "Quotes a string as a JSON value by wrapping it with double quote characters and escaping interior
+        # quote and other characters, then returning the result as a utf8mb4 string. Returns NULL if the argument is NULL."
+        need(1)
+        a = argfs[0]
+
+        def f_jsonquote(X):
+            v = a(X)
+            if v is None:
+                return None
+            import json as _json
+            return _json.dumps(cast_value(v, 'CHAR'), ensure_ascii=False)
+        return f_jsonquote
+    if name == 'JSON_CONTAINS':
+        # MySQL 8.0 ref. 14.17.3 JSON_CONTAINS(target, candidate[, path]); the path form is not implemented
+        if n == 3:
+            raise Unsupported('JSON_CONTAINS with a path argument')
+        need(2)
+
+        def f_jsoncontains(X):
+            t, c = argfs[0](X), argfs[1](X)
+            if t is None or c is None:
+                return None
+            import json as _json
+            docs = []
+            for i, v in enumerate((t, c)):
+                try:
+                    docs.append(_json.loads(v if isinstance(v, (str, bytes)) else json_text(v)))
+                except (ValueError, TypeError):
+                    raise SQLError(3141, f'Invalid JSON text in argument {i + 1} to function json_contains', '22032')
+            return 1 if json_contains(docs[0], docs[1]) else 0
+        return f_jsoncontains
     if name.startswith('JSON_'):
         raise Unsupported('JSON function ' + name)
     if name in ('VALUES',):
@@ -811,3 +843,34 @@ def _compile_func(node) -> Callable:
     def f_udf(X):
         return X.db.call_function(lname, [g(X) for g in argfs], X)
     return f_udf
+
+
+def _json_scalar_type(v: Any) -> str:
+    if v is None:
+        return 'NULL'
+    if isinstance(v, bool):
+        return 'BOOLEAN'
+    if isinstance(v, (int, float, Decimal)):
+        return 'NUMBER'          # "values of types INTEGER and DECIMAL are also comparable to each other"
+    return 'STRING'
+
+
+def json_contains(target: Any, candidate: Any) -> bool:
+    """MySQL's containment relation of JSON_CONTAINS (ref. manual 14.17.3):
+    * a candidate scalar is contained in a target scalar iff they are comparable (same JSON type; numbers with numbers) and equal
+      (strings compare case-sensitively: JSON strings use the utf8mb4_bin collation);
+    * a candidate array is contained in a target array iff every element of the candidate is contained in some element of the target;
+    * a candidate non-array is contained in a target array iff it is contained in some element of the target;
+    * a candidate object is contained in a target object iff for each key of the candidate the target has that key and the
+      candidate's value is contained in the target's value."""
+    if isinstance(candidate, list):
+        if isinstance(target, list):
+            return all(any(json_contains(te, ce) for te in target) for ce in candidate)
+        return False
+    if isinstance(target, list):
+        return any(json_contains(te, candidate) for te in target)
+    if isinstance(candidate, dict):
+        return isinstance(target, dict) and all(k in target and json_contains(target[k], v) for k, v in candidate.items())
+    if isinstance(target, dict):
+        return False
+    return _json_scalar_type(target) == _json_scalar_type(candidate) and target == candidate
